@@ -222,6 +222,17 @@ func hosts(tier string, S, R int) [][]string {
 	return res
 }
 
+// mkStores builds the topology the way the proxy does from its flags: the comma separated host list, in the documented
+// order (replica sets are consecutive groups of R hosts), goes through the real stores.NewStoresFromString.  The property
+// is judged on the documented replica sets (hostName(tier, s, r)), so a parser that groups differently is visible.
+func mkStores(tier string, S, R int) *stores.Stores {
+	var flat []string
+	for _, sh := range hosts(tier, S, R) {
+		flat = append(flat, sh...)
+	}
+	return stores.NewStoresFromString(strings.Join(flat, ","), max(R, 1))
+}
+
 var breakerCfg = circuitbreaker.Config{
 	Timeout:                  2 * time.Second,
 	MaxConcurrent:            100,
@@ -273,7 +284,7 @@ func run(c tcase) (bool, *world) {
 	defer verifhook.Set(nil)
 	defer verifhook.SetShuffle(nil)
 
-	cl := bulk.NewSeqDBClient(&stores.Stores{Shards: hosts("h", c.hotS, c.hotR)}, &stores.Stores{Shards: hosts("c", c.coldS, c.coldR)}, breakerCfg, clients)
+	cl := bulk.NewSeqDBClient(mkStores("h", c.hotS, c.hotR), mkStores("c", c.coldS, c.coldR), breakerCfg, clients)
 	docs := []byte(fmt.Sprintf("docs-%d-%d", c.hotS, len(c.perms)))
 	metas := []byte("metas-" + vh.Hash(c.String()))
 	w.payload = &storeapi.BulkRequest{Count: 3, Docs: docs, Metas: metas}
@@ -527,7 +538,7 @@ func runBulks(rng *vh.RNG, hotS, hotR, coldS, coldR, nbulks int, directed, seque
 		return p
 	})
 	defer verifhook.SetShuffle(nil)
-	cl := bulk.NewSeqDBClient(&stores.Stores{Shards: hosts("h", hotS, hotR)}, &stores.Stores{Shards: hosts("c", coldS, coldR)}, breakerCfg, clients)
+	cl := bulk.NewSeqDBClient(mkStores("h", hotS, hotR), mkStores("c", coldS, coldR), breakerCfg, clients)
 	ids := make([]string, nbulks)
 	starts := make([]int, nbulks)
 	for b := 0; b < nbulks; b++ {
@@ -680,7 +691,7 @@ func runBreaker(rng *vh.RNG, kind string, coldS int) (cases []string, bad []stri
 		return p
 	})
 	defer verifhook.SetShuffle(nil)
-	cl := bulk.NewSeqDBClient(&stores.Stores{Shards: hosts("h", hotS, hotR)}, &stores.Stores{Shards: hosts("c", coldS, coldR)}, cfg, clients)
+	cl := bulk.NewSeqDBClient(mkStores("h", hotS, hotR), mkStores("c", coldS, coldR), cfg, clients)
 	acked := make([]bool, len(ids))
 	var wg sync.WaitGroup
 	for b := range ids {
@@ -936,6 +947,35 @@ func main() {
 			}
 		}
 		rep.AddOracle(sorc)
+		torc := vh.NewOracle("replica.topology", "stores.NewStoresFromString on host lists of S x R hosts (with and without |version suffixes): replica set s = hosts [s*R, (s+1)*R) of the list, in order (Lean: groupHosts, c09_topology_groups_flatten); non-trivial = S >= 2 and R >= 2")
+		for S := 1; S <= 4; S++ {
+			for R := 1; R <= 4; R++ {
+				for _, ver := range []bool{false, true} {
+					var flat []string
+					for i := 0; i < S*R; i++ {
+						h := fmt.Sprintf("host%d", i)
+						if ver && i%2 == 0 {
+							h += "|v1"
+						}
+						flat = append(flat, h)
+					}
+					st := stores.NewStoresFromString(strings.Join(flat, ","), R)
+					okT := len(st.Shards) == S
+					for sI := 0; okT && sI < S; sI++ {
+						okT = len(st.Shards[sI]) == R
+						for r := 0; okT && r < R; r++ {
+							okT = st.Shards[sI][r] == fmt.Sprintf("host%d", sI*R+r)
+						}
+					}
+					desc := fmt.Sprintf("topology S=%d R=%d ver=%v", S, R, ver)
+					torc.Case(desc, S >= 2 && R >= 2, fmt.Sprintf("S=%d", S), fmt.Sprintf("R=%d", R))
+					if !okT {
+						rep.Violate(vh.Violation{Site: "proxy/stores/stores.go:NewStoresFromString", Class: "replica-sets-not-consecutive-groups", What: fmt.Sprintf("%s: got %v", desc, st.Shards), Replay: []string{desc}})
+					}
+				}
+			}
+		}
+		rep.AddOracle(torc)
 		borc := vh.NewOracle("replica.breaker", "the circuit breaker itself ends (execution timeout 50 ms vs a 250 ms replica, caller context alive) or refuses (MaxConcurrent = 1, several bulks in flight) a shard attempt; per payload: acknowledged => a full replica set per tier accepted exactly that payload; non-trivial = a bulk that was not acknowledged, or acknowledged after a timed-out/rejected attempt")
 		brng := vh.NewRNG(o.Seed + 123)
 		for i := 0; i < o.Pick(4, 24); i++ {
